@@ -743,7 +743,11 @@ struct _future_sender_from_stop_token<T...>::type final {
 
                 using return_t = variant_sender<value_t, error_t, done_t>;
 
-                auto state = rawOp->state_.load(std::memory_order_relaxed);
+                // acquire: if the spawned operation has already moved the
+                // state to complete (after an abandon) we delete rawOp below
+                // without any further synchronisation, so its last writes
+                // (destruct_op()) must happen-before that
+                auto state = rawOp->state_.load(std::memory_order_acquire);
 
                 // we capture state by reference because it may be updated by
                 // the compare_exchange_strong below
